@@ -1,11 +1,13 @@
 CONSTANTS
- MaxCycles = 5
+ MaxCycles = 7
  MaxFaults = 4
  Stores = {"noop","etcd"}
  HasLfs = FALSE
  FixBreakOnError = TRUE
  FixSentinel = TRUE
  FixLfsFail = TRUE
+ DevStaleCache = FALSE
+ DevTruncAccepted = FALSE
 INIT Init
 NEXT Next
 INVARIANTS EmitSched C33_CheckpointSafe C33_CleanCycleDelivers
